@@ -92,6 +92,7 @@ pub fn panic_signature(property: &str, file: &str, msg: &str) -> String {
 
 /// Signatures listed for `property` in a known_findings.json text, extracted without a JSON library:
 /// every object that contains `"property": "<property>"` contributes its `"signature"` string.
+#[allow(dead_code)] // used by the fuzz crate only
 pub fn known_signatures(json_text: &str, property: &str) -> Vec<String> {
     let mut out = vec![];
     // restrict to the "known" array when present, so "fixed" entries suppress nothing
@@ -178,6 +179,7 @@ pub fn known_signatures(json_text: &str, property: &str) -> Vec<String> {
     out
 }
 
+#[allow(dead_code)]
 fn string_field(obj: &str, field: &str) -> Option<String> {
     let pat = format!("\"{field}\"");
     let i = obj.find(&pat)?;
